@@ -230,7 +230,7 @@ def jobs(tier, seed):
     K = 3 if tier == "quick" else 4
     out = [(f"c{r}", "job_cloud", {"K": K, "regime": r, "tier": tier}) for r in ("below", "above", "between")]
     out += [(f"m{k}", "job_models", {"kind": k, "tier": tier}) for k in ("none", "nocloud", "mono")]
-    out.append(("map", "job_map", {"nlat": 3 if tier == "quick" else 4, "nlon": 4 if tier == "quick" else 5, "tier": tier}))
+    out.append(("map", "job_map", {"nlat": 3 if tier == "quick" else 4, "nlon": 5 if tier == "quick" else 7, "tier": tier}))  # (as in the shipped 361x576 maps: more longitude than latitude nodes, by more than one cell)
     out.append(("months", "job_months", {"tier": tier}))
     out.append(("eas_align", "job_eas_align", {"tier": tier}))
     return out
